@@ -104,6 +104,11 @@ _HTTPISH = [
     b"GET /f.txt?searchrequest=a+b&x=%ff HTTP/1.0", b"GET /f.txt? HTTP/1.0", b"GET ? HTTP/1.0", b"GET /%0d%0aX:y HTTP/1.0",
     b"GET /wap HTTP/1.0", b"GET /wap/ HTTP/1.0", b"GET /wapx HTTP/1.0", b"GET /wap/nope HTTP/1.0", b"GET\t/ HTTP/1.0",
     b"GET /a?searchrequest= HTTP/1.0", b"GET /f.txt#frag HTTP/1.0", b"GET /%zz HTTP/1.0", b"GET /% HTTP/1.0",
+    # request targets in the forms a URL parser treats specially: network-path and absolute form, with the same
+    # well- and ill-formed authorities as the Gemini list
+    b"GET //h/f.txt HTTP/1.0", b"GET //[ HTTP/1.0", b"GET //[::1]/f.txt HTTP/1.0", b"GET //[::1/f.txt HTTP/1.0", b"GET //]/ HTTP/1.0", b"GET http://h/f.txt HTTP/1.0", b"GET http://[/x HTTP/1.0",
+    b"GET http://[::1]:x/f.txt HTTP/1.0", b"GET http://h:99999/f.txt HTTP/1.0", b"GET http://u:pw@h:x/f.txt HTTP/1.0", b"HEAD //[v1.x/ HTTP/1.0", b"GET /wap//[ HTTP/1.0", b"GET /wap/http://[/x HTTP/1.0",
+    b"GET /[ HTTP/1.0", b"GET /f.txt?[ HTTP/1.0", b"GET //h:\xc2\xb2/f.txt HTTP/1.0", b"GET * HTTP/1.0", b"GET h:80 HTTP/1.0",
 ]
 _HDRS = [b"\r\n", b"Accept: text/vnd.wap.wml\r\nx-wap-profile: y\r\n\r\n", b"Accept: text/html\r\n\r\n", b"Broken\r\n: x\r\n\r\n", b""]
 for l in _HTTPISH:
